@@ -231,8 +231,12 @@ func cmdCheck(args []string) int {
 	if os.Getenv("GOVC_SLOW") != "" {
 		sorted := append([]*Obligation{}, all...)
 		sort.Slice(sorted, func(i, j int) bool { return sorted[i].Secs > sorted[j].Secs })
+		idx := map[*Obligation]int{}
+		for i, o := range all {
+			idx[o] = i
+		}
 		for i := 0; i < 12 && i < len(sorted); i++ {
-			fmt.Printf("SLOW %.2fs %s %s\n", sorted[i].Secs, sorted[i].Solver, sorted[i].Name)
+			fmt.Printf("SLOW %.2fs %s %s q%04d\n", sorted[i].Secs, sorted[i].Solver, sorted[i].Name, idx[sorted[i]])
 		}
 	}
 	// evidence
